@@ -55,7 +55,7 @@ FileVerdict(f) == CASE f \in {"none", "absent", "absent-in-subdir"} -> "accept"
                     [] OTHER -> "reject"
 
 \* --password: the passphrase as typed is part of the source secret AND of the master block that is echoed
-PwClasses == {"none", "ascii", "nfkd-sensitive", "blank-padded", "empty"}
+PwClasses == {"none", "ascii", "nfkd-sensitive", "blank-padded", "empty", "json-like"}
 TakesPassword(c) == c \in {"new", "from-mnemonic", "from-entropy-hex"}
 PwVerdict(c, w) == IF w = "none" \/ TakesPassword(c) THEN "accept" ELSE "reject"     \* unknown option of that sub-command
 
